@@ -58,10 +58,16 @@ def random_floats(lower: float | None = None, upper: float | None = None) -> Ite
         yield random.uniform(lower, upper)
 
 
-def random_ints(lower: int = -sys.maxsize, upper: int = sys.maxsize) -> Iterator[int]:
+def random_ints(lower: int | None = None, upper: int | None = None) -> Iterator[int]:
     # yield lower
     # yield upper
     # TODO: maybe first generate_true some smaller ints
+
+    # a bound that is not given lies beyond the given one (a fixed +-sys.maxsize could lie on the wrong side of it)
+    if lower is None:
+        lower = -sys.maxsize if upper is None else min(-sys.maxsize, upper - sys.maxsize)
+    if upper is None:
+        upper = max(sys.maxsize, lower + sys.maxsize)
 
     # sample around the admissible value closest to zero, so that a bound beyond +-100 still leaves a window
     origin = min(max(0, lower), upper)
